@@ -160,6 +160,9 @@ static void print_flags(int flags)
 
 static char lock_path[64];
 
+// A case line may start with "@<n>": errno is set to n immediately before every library call under test.
+static int entry_errno;
+
 static void case_scripted(char** tok)
 {
   FILE* f = fopen(lock_path, open_mode(tok[5][0]));
@@ -174,8 +177,8 @@ static void case_scripted(char** tok)
   seen_calls = 0;
   seen_fd    = -1;
   scripted   = 1;
-  errno      = 0;
   in_zix_call = 1;
+  errno      = entry_errno;
   const ZixStatus st = (tok[1][0] == 'L') ? zix_file_lock(f, mode) : zix_file_unlock(f, mode);
   in_zix_call = 0;
   scripted   = 0;
@@ -269,6 +272,7 @@ static void worker_loop(Worker* w)
     switch (c) {
     case 't':
     case 'b':
+      errno = entry_errno;
       st = f ? zix_file_lock(f, c == 't' ? ZIX_FILE_LOCK_TRY : ZIX_FILE_LOCK_BLOCK) : ZIX_STATUS_BAD_ARG;
       if (st == ZIX_STATUS_SUCCESS && !holding) {
         holding = 1;
@@ -281,6 +285,7 @@ static void worker_loop(Worker* w)
         atomic_fetch_sub(&shared->occ, 1); // ... to here
         holding = 0;
       }
+      errno = entry_errno;
       st = f ? zix_file_unlock(f, c == 'u' ? ZIX_FILE_LOCK_TRY : ZIX_FILE_LOCK_BLOCK) : ZIX_STATUS_BAD_ARG;
       break;
     case 'c':
@@ -623,7 +628,13 @@ int main(void)
   signal(SIGPIPE, SIG_IGN);
   signal(SIGXFSZ, SIG_IGN); // a write over the file size limit fails with EFBIG instead of killing us
   while (vgetline(&line, &cap)) {
-    const int n = vsplit(line, tok, 8);
+    int n = vsplit(line, tok, 8);
+    entry_errno = 0;
+    if (n > 0 && tok[0][0] == '@') {
+      entry_errno = atoi(tok[0] + 1);
+      --n;
+      memmove(tok, tok + 1, (size_t)n * sizeof(tok[0]));
+    }
     if (n == 6 && !strcmp(tok[0], "F")) {
       case_scripted(tok);
     } else if (n == 3 && !strcmp(tok[0], "P")) {
